@@ -22,6 +22,7 @@ import Golem.Driver.C20
 import Golem.Driver.Lockstep
 import Golem.Driver.Unbound
 import Golem.Driver.Timed
+import Golem.Driver.Throttle
 import Golem.Driver.ForkFold
 
 def main (args : List String) : IO UInt32 := do
@@ -49,5 +50,6 @@ def main (args : List String) : IO UInt32 := do
   | ["lockstep"] => Golem.Driver.Lockstep.main; return 0
   | ["unbound"] => Golem.Driver.Unbound.main; return 0
   | ["timed"] => Golem.Driver.Timed.main; return 0
+  | ["throttle"] => Golem.Driver.Throttle.main; return 0
   | ["forkfold"] => Golem.Driver.ForkFold.main; return 0
   | _ => IO.eprintln "usage: oracle <C01..C20>"; return 2
